@@ -381,9 +381,10 @@ impl AsmLine {
             Label::Unfilled(_) => panic!("Tried to offset unfilled label"),
         };
         let (offset, _) = label_pos.overflowing_sub(self.line);
-        let offset = (offset as i16) - 1;
+        // Widened so that a distance of 0x8000 lines cannot overflow
+        let offset = (offset as i16) as i32 - 1;
         // Must fit in specified offset bits
-        if offset.abs() > 2i16.pow(bits - 1) - if offset > 0 { 1 } else { 0 } {
+        if offset.abs() > 2i32.pow(bits - 1) - if offset > 0 { 1 } else { 0 } {
             bail!(
                 severity = Severity::Error,
                 r#"Difference between label and label reference is too large: at line {}, referencing line {}
